@@ -566,6 +566,13 @@ func parseTrailer(t *protocol.Trailer, buf []byte) (int, error) {
 
 // writeTrailer writes response trailer to w
 func WriteTrailer(t *protocol.Trailer, w network.Writer) error {
-	_, err := w.WriteBinary(t.Header())
-	return err
+	// the block is the trailer's scratch buffer, which the next Set/Header call rewrites, while
+	// WriteBinary may keep a reference until Flush (the body stream is closed before that): copy it.
+	header := t.Header()
+	buf, err := w.Malloc(len(header))
+	if err != nil {
+		return err
+	}
+	copy(buf, header)
+	return nil
 }
